@@ -101,6 +101,7 @@ def check(pid, tier, seed):
         s = c_api.shrink(scripts[k], differs)
         (hl, ml), = struct_run([s])
         jj = first_diff(hl, ml)
+        if jj is None: continue        # not reproduced when run on its own (a script starved of time on a loaded machine): not reported
         at = s[jj] if jj is not None and jj < len(s) else "?"
         h = strip(hl[jj]) if jj is not None and jj < len(hl) else "<missing>"
         m = ml[jj] if jj is not None and jj < len(ml) else "<missing>"
